@@ -84,7 +84,7 @@ struct smoothed_aggregation {
          * a_{ij} \quad \text{if} \; j \in N_i\\
          * 0 \quad \text{otherwise}
          * \end{cases}, \quad \text{if}\; i \neq j,
-         * \quad a_{ii}^F = a_{ii} - \sum\limits_{j=1,j\neq i}^n
+         * \quad a_{ii}^F = a_{ii} + \sum\limits_{j=1,j\neq i}^n
          * \left(a_{ij} - a_{ij}^F \right),
          * \f]
          * where \f$N_i\f$ is the set of variables, strongly coupled to
@@ -193,7 +193,7 @@ struct smoothed_aggregation {
             for(ptrdiff_t i = 0; i < static_cast<ptrdiff_t>(n); ++i) {
 
                 // Diagonal of the filtered matrix is the original matrix
-                // diagonal minus its weak connections.
+                // diagonal plus its weak connections.
                 value_type dia = math::zero<value_type>();
                 for(ptrdiff_t j = A.ptr[i], e = A.ptr[i+1]; j < e; ++j) {
                     if (A.col[j] == i || !aggr.strong_connection[j])
